@@ -61,6 +61,9 @@ def _lib():
         "VonMises": D.VonMisesDistribution,
         "ScipyGamma": GammaScipy,
         "ScipyGumbel": GumbelScipy,  # appended: the indices of the other carriers (`% 7` below) stay what they were
+        # the log-normal with the (mean, standard deviation) parametrisation: a shipped subclass with its own
+        # parameter names (mu_norm, sigma_norm) and closed-form fit; not in distributions.__all__
+        "LogNormalNormFit": D.LogNormalNormFitDistribution,
     }
     return virocon, fams
 
@@ -69,7 +72,7 @@ V, FAM = _lib()
 FAMILIES = list(FAM)
 PARAMS = {f: list(FAM[f]().parameters) for f in FAMILIES}
 FIXVAL = {"alpha": 1.5, "beta": 2.0, "gamma": 0.0, "mu": 0.5, "sigma": 0.4, "delta": 1.2, "m": 1.5,
-          "c": 1.2, "lambda_": 1.0, "kappa": 2.0, "a": 2.0, "loc": 0.0, "scale": 1.0}
+          "c": 1.2, "lambda_": 1.0, "kappa": 2.0, "a": 2.0, "loc": 0.0, "scale": 1.0, "mu_norm": 2.0, "sigma_norm": 0.5}
 CHEAP = ["Weibull", "LogNormal", "Normal"]
 
 
@@ -195,10 +198,12 @@ def _frame_local(tb, func_names, var):
     return found
 
 
-def run_model_ctor(dims):
+def run_model_ctor(dims, container="list"):
     """GlobalHierarchicalModel(dist_descriptions) on the real code"""
     try:
         descs = [build_desc(d) for d in dims]
+        if container == "tuple":
+            descs = tuple(descs)
     except Exception as e:  # noqa: BLE001  (building the ingredients must not fail)
         raise RuntimeError(f"harness could not build the description: {e!r}")
     try:
@@ -275,6 +280,8 @@ def downstream(dims):
 def mal_class(dims):
     """the classes of malformation present (for signatures and the input distribution)"""
     out = []
+    if not dims:
+        out.append("empty_model")
     for i, d in enumerate(dims):
         if not d["has_dist"]:
             out.append("no_distribution")
@@ -340,9 +347,10 @@ def injections(d, i, n):
     c = make_conditional(d, i)
     out.append(("unknown_param", "foo", dict(c, dep=c["dep"] + ["foo"])))
     out.append(("unknown_param", "only", dict(c, dep=["foo"])))
-    for p in (names[0], names[-1]):
+    for p in names:  # every parameter of the family in turn is the offending one
         out.append(("param_both", p, dict(c, fixed=[p])))
         out.append(("param_neither", p, dict(c, dep=[q for q in c["dep"] if q != p])))
+    out.append(("param_neither", "empty_dict", dict(c, dep=[])))  # "parameters": {}
     out.append(("cond_on_self", "", dict(c, cond=["int", i])))
     for k in range(i + 1, n):
         out.append(("cond_on_later", str(k), dict(c, cond=["int", k])))
@@ -371,8 +379,14 @@ def neighbours(d, i):
 
 def model_cases(rng, thorough):
     """single malformations and their neighbours, exhaustive over structure x position x family"""
+    # no dimension at all (the model's `emptyModel`; WellFormedModel demands ds != [])
+    for cont in ("list", "tuple"):
+        yield {"entry": "model", "gen": "single:empty_model", "variant": cont, "container": cont, "dims": []}
     for n in (1, 2, 3, 4):
         for si, c in enumerate(structures(n)):
+            # the description list handed over as a tuple (any sequence of dicts is taken)
+            yield {"entry": "model", "gen": "neighbour:container_tuple", "container": "tuple",
+                   "dims": [base_dim(FAMILIES[(si + k) % len(FAMILIES)], c[k]) for k in range(n)]}
             for i in range(n):
                 for fam in FAMILIES:
                     others = [FAMILIES[(si + k + i) % 7] for k in range(n)]
@@ -428,7 +442,7 @@ def pair_cases(rng, n_cases=None):
         n = int(rng.integers(1, 5))
         st = structures(n)
         c = st[int(rng.integers(0, len(st)))]
-        dims = [base_dim(FAMILIES[int(rng.integers(0, 7))], c[k]) for k in range(n)]
+        dims = [base_dim(FAMILIES[int(rng.integers(0, len(FAMILIES)))], c[k]) for k in range(n)]
         i = int(rng.integers(0, n))
         j = int(rng.integers(i, n))
         allp = list(pair_at(dims, i, j, n))
@@ -447,14 +461,14 @@ def pmap(fn, items):
     return POOL.map(fn, items, chunksize=max(1, min(500, len(items) // 32)))
 
 
-def _impl_model(dims):
-    return run_model_ctor(dims)[0]
+def _impl_model(x):
+    return run_model_ctor(x[0], x[1])[0]
 
 
 def process_model(ck, cases, state):
     lines = [desc_line(c["dims"]) for c in cases]
     answers = ck.driver.run(lines) if lines else []
-    impls = pmap(_impl_model, [c["dims"] for c in cases])
+    impls = pmap(_impl_model, [(c["dims"], c.get("container", "list")) for c in cases])
     for case, ans, impl in zip(cases, answers, impls):
         dims = case["dims"]
         model = parse_ans(ans)
@@ -469,7 +483,7 @@ def process_model(ck, cases, state):
         ck.count("model:" + ("wellformed" if wf else "illformed"))
         for cl in classes:
             ck.count("class=" + cl)
-        if not wf:
+        if not wf and dims:
             ck.count("carrier=" + dims[case["pos"] if isinstance(case.get("pos"), int) else 0]["fam"])
         failed = False
         # the model's verdict is the declarative predicate (theorem model_desc_ok_iff_wellformed)
@@ -543,6 +557,9 @@ def mk_slicer(s):
         kw["min_n_intervals"] = s["min_n_intervals"]
     for k in s.get("unknown_kwargs", []):
         kw[k] = 1
+    for k, v in s.get("options", {}).items():
+        # the named options of the three slicer classes; on the wrong class they end up in **kwargs
+        kw[k] = tuple(v) if isinstance(v, list) else v
     ref = s.get("ref", ["default"])
     if ref[0] == "str":
         kw["reference"] = ref[1]
@@ -571,19 +588,36 @@ def ref_tag(s):
     return "other"
 
 
+OWN_OPTIONS = {"width": ("right_open", "value_range"), "number": ("include_max", "value_range"), "ppi": ("last_full",)}
+
+
+def misplaced_options(s):
+    """named options that belong to another slicer class (for this class: unknown keyword arguments)"""
+    return [k for k in s.get("options", {}) if k not in OWN_OPTIONS[s["kind"]]]
+
+
 def n_kept(s, x):
     """number of intervals with >= min_n_points observations (own computation, not the slicer's)"""
     x = np.asarray(x, dtype=float)
     mp = 50 if s.get("min_n_points") is None else s["min_n_points"]
+    opt = {k: v for k, v in s.get("options", {}).items() if k in OWN_OPTIONS[s["kind"]]}
+    vr = opt.get("value_range")
     if s["kind"] == "width":
         w = s["width"]
-        starts = np.arange(0, np.max(x) + w, w)
-        counts = [int(np.sum((lo <= x) & (x < lo + w))) for lo in starts]
+        lo0 = 0 if vr is None or vr[0] is None else vr[0]
+        hi0 = np.max(x) if vr is None or vr[1] is None else vr[1]
+        starts = np.arange(lo0, hi0 + w, w)
+        if opt.get("right_open", True):
+            counts = [int(np.sum((lo <= x) & (x < lo + w))) for lo in starts]
+        else:
+            counts = [int(np.sum((lo < x) & (x <= lo + w))) for lo in starts]
     elif s["kind"] == "number":
         k = s["n_intervals"]
-        lo, hi = float(np.min(x)), float(np.max(x))
+        lo, hi = (float(np.min(x)), float(np.max(x))) if vr is None else (float(vr[0]), float(vr[1]))
         edges = lo + (hi - lo) * np.arange(k + 1) / k
-        counts = [int(np.sum((edges[j] <= x) & ((x < edges[j + 1]) if j < k - 1 else (x <= hi)))) for j in range(k)]
+        incl = opt.get("include_max", True)
+        counts = [int(np.sum((edges[j] <= x) & ((x < edges[j + 1]) if (j < k - 1 or not incl) else (x <= hi))))
+                  for j in range(k)]
     else:
         npts = s["n_points"]
         mp = min(mp, npts)
@@ -651,6 +685,71 @@ def fit_data(n_rows, n_cols, seed):
     return np.column_stack(cols) if n_cols else np.empty((n_rows, 0))
 
 
+TABLE_FORMS = ("ndarray", "list", "tuple", "df", "fortran")
+
+
+def data_shape(case):
+    """shape of np.array(data) for the case's `data_form` (default: a 2-D ndarray of n_rows x data_dim):
+    the table as ndarray / nested list / tuple of tuples / pandas DataFrame / Fortran-ordered array; `flat`: one
+    column as a flat sequence of n_rows values; `row`: one observation (data_dim values) not wrapped in a
+    table; `scalar`; `3ax_tail1`: the table with a trailing axis of length 1; `3ax_blocks`: the rows of the
+    table split into 5 blocks (5, n_rows/5, data_dim)"""
+    form = case.get("data_form", "ndarray")
+    r, c = case["n_rows"], case["data_dim"]
+    if form in TABLE_FORMS:
+        return [r, c]
+    if form in ("flat", "flat_list"):
+        return [r]
+    if form in ("row", "row_list"):
+        return [c]
+    if form == "scalar":
+        return []
+    if form == "3ax_tail1":
+        return [r, c, 1]
+    if form == "3ax_blocks":
+        return [5, r // 5, c]
+    raise KeyError(form)
+
+
+def data_value(case):
+    form = case.get("data_form", "ndarray")
+    t = fit_data(case["n_rows"], case["data_dim"], case.get("data_seed", 0))
+    if form == "ndarray":
+        return t
+    if form == "list":
+        return t.tolist()
+    if form == "tuple":
+        return tuple(tuple(r) for r in t.tolist())
+    if form == "df":
+        import pandas as pd
+
+        return pd.DataFrame(t, columns=["v%d" % k for k in range(t.shape[1])])
+    if form == "fortran":
+        return np.asfortranarray(t)
+    if form == "flat":
+        return np.ascontiguousarray(t[:, 0])
+    if form == "flat_list":
+        return t[:, 0].tolist()
+    if form == "row":
+        return np.ascontiguousarray(t[0, :])
+    if form == "row_list":
+        return t[0, :].tolist()
+    if form == "scalar":
+        return 1.5
+    if form == "3ax_tail1":
+        return t.reshape(t.shape + (1,))
+    if form == "3ax_blocks":
+        return t.reshape((5, t.shape[0] // 5, t.shape[1]))
+    raise KeyError(form)
+
+
+def fit_observed_only(case):
+    """three or more axes whose LAST axis has n_dim entries: the code's data check (`shape[-1] != n_dim`) lets
+    these through and what the numerical fits then do with 2-D columns is not validation; only observed"""
+    sh = data_shape(case)
+    return len(sh) >= 3 and sh[-1] == len(case["dims"])
+
+
 def build_fit(case):
     dims = case["dims"]
     n = len(dims)
@@ -658,7 +757,9 @@ def build_fit(case):
     with warnings.catch_warnings():
         warnings.simplefilter("ignore")
         m = V.GlobalHierarchicalModel(descs)
-    data = fit_data(case["n_rows"], case["data_dim"], case.get("data_seed", 0))
+    data = data_value(case)
+    if list(np.array(data).shape) != data_shape(case):
+        raise RuntimeError("harness bug: data_shape disagrees with the data built for " + json_key(case)[:300])
     fd = case["fit_descs"]
     if fd is None:
         fds = None
@@ -707,7 +808,8 @@ def fit_line(case):
                 has = x.get("method") is not None
                 toks += ["d", "1" if has else "0", method_tag(x["method"]) if has else "mle",
                          weights_tag(x["weights"]) if x.get("weights") is not None else "none"]
-    toks += [str(case["data_dim"])]
+    sh = data_shape(case)
+    toks += [str(len(sh))] + [str(k) for k in sh]
     return toks
 
 
@@ -719,7 +821,8 @@ def wf_fit(case):
     if fd is not None:
         if len(fd) != n or any(x is not None and x.get("method") is None for x in fd):
             return False
-    if case["data_dim"] != n:
+    # the data is a table (exactly two axes) with one column per dimension
+    if case.get("data_form", "ndarray") not in TABLE_FORMS or case["data_dim"] != n:
         return False
     data = fit_data(case["n_rows"], n, case.get("data_seed", 0))
     for i, d in enumerate(dims):
@@ -847,19 +950,50 @@ def _fit_variants(base, n, c, i, fam):
         if c[i] is None:
             yield var("neighbour:array_weights",
                       fit_descs=descs_with(i, {"method": ["str", "wlsq"], "weights": ["array"]}))
+    # the same table handed over in the other array-like forms `fit` documents (np.array(data) is what counts)
+    # (the conversion happens before any family-specific code: run with the carriers that have closed-form fits)
+    for form in TABLE_FORMS[1:]:
+        if fam in ("Normal", "LogNormal", "LogNormalNormFit") and (n <= 2 or (TABLE_FORMS.index(form) + i) % 2 == 0):
+            yield var("neighbour:data_form", data_form=form)
     # malformed
     for dd in ([n - 1] if n > 1 else []) + [n + 1]:
         yield var("single:data_dim", data_dim=dd)
+    # not a table: one column flat (last axis = n_rows), one observation flat (last axis = n_dim: passes the
+    # dimension test, `data[:, 0]` fails), a scalar, a trailing extra axis (last axis 1 != n_dim for n_dim >= 2)
+    for form in ("flat", "flat_list", "row", "row_list", "scalar"):
+        yield var("single:data_not_a_table", data_form=form)
+    yield var("single:data_not_a_table" if n > 1 else "observed:data_axes", data_form="3ax_tail1")
+    yield var("single:data_not_a_table", data_form="3ax_blocks", data_dim=n + 1)
+    if i == 0:
+        yield var("observed:data_axes", data_form="3ax_blocks")
     for L in (n - 1, n + 1):
         yield var("single:fit_desc_length", fit_descs=[None] * L)
     yield var("single:no_method", fit_descs=descs_with(i, {"weights": ["none"]}))
     yield var("single:no_method", fit_descs=descs_with(i, {}))
-    for mth in (["str", "foo"], ["str", "ml"], ["str", ""], ["int"], ["none_value"]):
-        if mth[0] == "none_value":
-            continue
+    for mth in (["str", "foo"], ["str", "ml"], ["str", ""], ["int"], ["none"]):  # ["none"]: "method": None
         yield var("single:unknown_method", fit_descs=descs_with(i, {"method": mth}))
     for w in (["str", "foo"], ["str", "square"], ["int"], ["array_nan"], ["array_inf"]):
         yield var("single:unknown_weights", fit_descs=descs_with(i, {"method": ["str", "wlsq"], "weights": w}))
+    for w in (["str", "foo"], ["int"]):  # plain least squares reads the weights keyword as well
+        yield var("single:unknown_weights", fit_descs=descs_with(i, {"method": ["str", "lsq"], "weights": w}))
+    if fam == "ExpWeibull":
+        # least squares of the exponentiated Weibull is only implemented with no parameter or only delta fixed
+        for fx, ok in ((["delta"], True), (["alpha"], False), (["beta"], False), (["alpha", "delta"], False)):
+            for mth in ("lsq", "wlsq"):
+                x = var("neighbour:lsq_fixed_delta" if ok else "single:lsq_unsupported",
+                        fit_descs=descs_with(i, {"method": ["str", mth], "weights": ["str", "linear"]}))
+                d = x["dims"][i]
+                d["fixed"] = list(fx)
+                if d["cond"] is not None:
+                    d["dep"] = [p for p in d["dep"] if p not in fx]
+                yield x
+            if fx == ["alpha", "delta"]:  # ... maximum likelihood has no such restriction
+                x = var("neighbour:mle_fixed", fit_descs=descs_with(i, {"method": ["str", "mle"]}))
+                d = x["dims"][i]
+                d["fixed"] = list(fx)
+                if d["cond"] is not None:
+                    d["dep"] = [p for p in d["dep"] if p not in fx]
+                yield x
     if fam != "ExpWeibull":
         yield var("single:lsq_unsupported", fit_descs=descs_with(i, {"method": ["str", "lsq"]}))
     if c[i] is not None:
@@ -898,6 +1032,8 @@ def fit_pair_cases(rng, count):
         x["gen"] = "pair:" + a["gen"][7:] + "+" + b["gen"][7:]
         if b["data_dim"] != base["data_dim"]:
             x["data_dim"] = b["data_dim"]
+        if "data_form" in b and "data_form" not in a:
+            x["data_form"] = b["data_form"]
         if b["fit_descs"] != base["fit_descs"]:
             if a["fit_descs"] == base["fit_descs"]:
                 x["fit_descs"] = copy.deepcopy(b["fit_descs"])
@@ -918,7 +1054,8 @@ def process_fit(ck, cases, state):
     answers = ck.driver.run(lines) if lines else []
 
     def fkey(case):
-        return json_key({k: case[k] for k in ("dims", "slicers", "fit_descs", "data_dim", "n_rows", "data_seed")})
+        return json_key({k: case.get(k) for k in ("dims", "slicers", "fit_descs", "data_dim", "n_rows", "data_seed",
+                                                   "data_form")})
 
     todo = {}
     for case in cases:
@@ -929,9 +1066,18 @@ def process_fit(ck, cases, state):
         state["fit_cache"][k] = impl
     for case, ans in zip(cases, answers):
         model = parse_ans(ans)
+        impl = state["fit_cache"][fkey(case)]
+        form = case.get("data_form", "ndarray")
+        if form != "ndarray":
+            ck.count("fit:data_form=" + form + ":" + impl["status"])
+        if fit_observed_only(case):
+            ck.case(case, nontrivial=True, sample=False)
+            ck.count("entry=fit")
+            ck.count("observed_only:fit_data_with_%d_axes_last_axis_n_dim:%s" % (
+                len(data_shape(case)), impl["status"] + (":" + impl["kind"] if impl["status"] == "rejected" else "")))
+            continue
         wf = wf_fit(case)
         expect_gen(case, wf)
-        impl = state["fit_cache"][fkey(case)]
         ck.case(case, nontrivial=True, sample=(state["n"] % 397 == 0))
         state["n"] += 1
         ck.count("entry=fit")
@@ -997,6 +1143,27 @@ def slicer_cases(rng, thorough):
             for ref in (["str", "foo"], ["str", "centre"], ["str", "median"], ["int"], ["none"]):
                 yield var("single:unknown_reference", ref=ref)
                 yield var("pair:unknown_reference+too_few", ref=ref, min_n_intervals=30)
+            # the named options of the slicer classes: accepted by the class that defines them, an unknown
+            # keyword argument for the other classes (they arrive in **kwargs of IntervalSlicer.__init__)
+            named = [("right_open", False), ("right_open", True), ("include_max", False), ("include_max", True),
+                     ("last_full", False), ("last_full", True), ("value_range", [0.5, 3.0]), ("value_range", [1.0, 4.0])]
+            if b["kind"] == "width":
+                named += [("value_range", [None, 3.0]), ("value_range", [0.5, None]), ("value_range", [None, None])]
+            for k, v in named:
+                own = k in OWN_OPTIONS[b["kind"]]
+                yield var("neighbour:own_option" if own else "single:misplaced_option", options={k: v},
+                          min_n_intervals=2)
+                if not own:
+                    yield var("pair:misplaced_option+reference", options={k: v}, ref=["str", "foo"])
+                    yield var("pair:misplaced_option+own_option",
+                              options={k: v, OWN_OPTIONS[b["kind"]][0]: False})
+            # the constructor arguments of the other classes are unknown keywords as well
+            for k in ("width", "n_intervals", "n_points"):
+                if k not in b:
+                    yield var("single:misplaced_option", unknown_kwargs=[k])
+            if b["kind"] != "ppi":
+                yield var("neighbour:own_option", options={OWN_OPTIONS[b["kind"]][0]: False, "value_range": [0.5, 3.5]},
+                          min_n_intervals=2)
             for mn in (0, 1, 2, 3, 4, 5, 6, 9, 30):
                 yield var("minn", min_n_intervals=mn)
             for mp in (1, 5, 11, 20, 41):
@@ -1007,14 +1174,14 @@ def slicer_cases(rng, thorough):
 def slicer_line(case):
     s = case["slicer"]
     x = fit_data(case["n_rows"], 1, case["data_seed"])[:, 0]
-    return ["RUN", "c18slicer", s["kind"], str(len(s.get("unknown_kwargs", []))), ref_tag(s),
+    return ["RUN", "c18slicer", s["kind"], str(len(s.get("unknown_kwargs", [])) + len(misplaced_options(s))), ref_tag(s),
             str(s.get("n_intervals", 0)), str(eff_min_n(s)), str(n_kept(s, x))]
 
 
 def wf_slicer(case):
     s = case["slicer"]
     x = fit_data(case["n_rows"], 1, case["data_seed"])[:, 0]
-    if s.get("unknown_kwargs"):
+    if s.get("unknown_kwargs") or misplaced_options(s):
         return False
     rt = ref_tag(s)
     if s["kind"] == "ppi":
@@ -1106,11 +1273,40 @@ def eval_model(n, variant=0):
     return V.GlobalHierarchicalModel(descs)
 
 
+LIM_VALUES = {
+    # well-formed (min, max) in the forms a user writes them: all `LimTag.tuple 2` for the model
+    "t2": (0, 4), "t2f": (0.0, 4.0), "t2l": [0, 4], "t2a": ("array", [0.0, 4.0]), "t2np": ("npints", [0, 4]),
+    # two entries that are not numbers (`LimTag.nonNumeric`)
+    "e_none0": (None, 4), "e_none1": (0, None), "e_str": "ab", "e_strs": ("0", "4"), "e_nested": ((0, 1), (2, 3)),
+    # two numbers, one of them not finite (`LimTag.nonFinite`)
+    "x_nan0": (float("nan"), 4), "x_nan1": (0, float("nan")), "x_inf": (0, float("inf")),
+    "x_ninf": (float("-inf"), 4),
+}
+
+
 def lim_value(t):
     if t == "s":
         return 4
+    if t in LIM_VALUES:
+        v = LIM_VALUES[t]
+        if isinstance(v, tuple) and len(v) == 2 and v[0] == "array":
+            return np.array(v[1])
+        if isinstance(v, tuple) and len(v) == 2 and v[0] == "npints":
+            return (np.int64(v[1][0]), np.int64(v[1][1]))
+        return v
     k = int(t[1:])
-    return tuple([0, 4, 5, 6][:k]) if k != 2 else (0, 4)
+    return tuple([0, 4, 5, 6][:k])
+
+
+def lim_tok(t):
+    """token for the model"""
+    if t in LIM_VALUES:
+        return "t2" if t.startswith("t2") else t[0]
+    return t
+
+
+def lim_ok(t):
+    return t in LIM_VALUES and t.startswith("t2")
 
 
 def dval_value(v):
@@ -1150,6 +1346,25 @@ def grid_cases(rng, thorough):
                 yield var("pair:limit_tuple+deltas_length", lims, ["l"] + ["p"] * (n + 1))
                 yield var("pair:limit_tuple+delta_value", lims, ["l"] + ["p"] * (n - 1) + ["z"])
                 yield var("pair:limit_tuple+delta_value", lims, ["l"] + ["n"] + ["p"] * (n - 1))
+        # value-level variants of one limit entry: other spellings of a well-formed (min, max); entries that are
+        # not numbers; non-finite entries - each with given and with default deltas
+        for i in range(n):
+            for t in LIM_VALUES:
+                if t == "t2":
+                    continue
+                lims = list(ok_l)
+                lims[i] = t
+                for df in (["s", "p"], None, ["l"] + ["p"] * n):
+                    if df is None and lim_ok(t) and n > 1:
+                        continue  # default deltas: 400 cells per axis, only computed for one dimension
+                    yield var("neighbour:limit_spelling" if lim_ok(t) else "single:limit_entry", lims, df)
+                if not lim_ok(t) and i + 1 < n:
+                    l2 = list(lims)
+                    l2[n - 1] = "t3"
+                    yield var("pair:limit_entry+limit_tuple", l2, ["s", "p"])
+        for cont in ("tuple", "array"):
+            yield {"entry": "grid", "gen": "neighbour:limits_container", "n_dim": n, "limits": list(ok_l),
+                   "deltas": ["s", "p"], "limits_container": cont}
         for L in sorted({0, n - 1, n + 1, n + 3}):
             if L != n:
                 for form in ("l", "tuple", "array"):
@@ -1170,7 +1385,7 @@ def grid_line(case):
     if case["limits"] is None:
         toks += ["-"]
     else:
-        toks += [str(len(case["limits"]))] + list(case["limits"])
+        toks += [str(len(case["limits"]))] + [lim_tok(t) for t in case["limits"]]
     d = case["deltas"]
     if d is None:
         toks += ["-"]
@@ -1184,7 +1399,7 @@ def grid_line(case):
 def wf_grid(case):
     n = case["n_dim"]
     if case["limits"] is not None:
-        if len(case["limits"]) != n or any(t != "t2" for t in case["limits"]):
+        if len(case["limits"]) != n or any(not lim_ok(t) for t in case["limits"]):
             return False
     d = case["deltas"]
     if d is None:
@@ -1198,6 +1413,10 @@ def run_grid(case, models):
     n = case["n_dim"]
     m = models[n]
     limits = None if case["limits"] is None else [lim_value(t) for t in case["limits"]]
+    if case.get("limits_container") == "tuple":
+        limits = tuple(limits)
+    elif case.get("limits_container") == "array":
+        limits = np.array(limits)
     d = case["deltas"]
     if d is None:
         deltas = None
@@ -1256,6 +1475,141 @@ def process_grid(ck, cases, state):
                 ck.count("divergence_with_oracle_failure")
             else:
                 ck.diverge("validateGrid", case, d)
+
+
+# NaN in the density table of a HighestDensityContour (anchored raise sites contours.py `_compute` and
+# `cumsum_biggest_until`); the property's list does not name this input class: correspondence only, no oracle
+
+
+def density_cases(rng, thorough):
+    for n in (1, 2, 3):
+        yield {"entry": "density", "gen": "neighbour:finite_density", "site": "contour", "n_dim": n, "nan_at": None}
+        for k in range(n):
+            yield {"entry": "density", "gen": "nan_density", "site": "contour", "n_dim": n, "nan_at": k}
+    for shape in ([4], [3, 3], [2, 3, 2]):
+        yield {"entry": "density", "gen": "neighbour:finite_density", "site": "cumsum", "shape": shape, "nan_at": None}
+        size = int(np.prod(shape))
+        for k in sorted({0, size // 2, size - 1}):
+            yield {"entry": "density", "gen": "nan_density", "site": "cumsum", "shape": shape, "nan_at": k}
+
+
+def run_density(case):
+    nan = float("nan")
+    try:
+        with warnings.catch_warnings():
+            warnings.simplefilter("ignore")
+            if case["site"] == "contour":
+                n = case["n_dim"]
+                descs = []
+                for k in range(n):
+                    bad = case["nan_at"] == k
+                    if k % 2 == 0:
+                        descs.append({"distribution": V.WeibullDistribution(nan if bad else 1.5, 2.0, 0.0)})
+                    else:
+                        descs.append({"distribution": V.NormalDistribution(nan if bad else 2.0, 0.8)})
+                m = V.GlobalHierarchicalModel(descs)
+                c = V.HighestDensityContour(m, 0.1, limits=[(0, 4)] * n, deltas=0.5)
+                return {"status": "accepted", "where": "HighestDensityContour", "n_coords": len(c.coordinates)}
+            a = np.linspace(0.02, 0.3, int(np.prod(case["shape"])))
+            a = a / a.sum()
+            if case["nan_at"] is not None:
+                a[case["nan_at"]] = nan
+            fields, last = V.HighestDensityContour.cumsum_biggest_until(a.reshape(case["shape"]), 0.6)
+            return {"status": "accepted", "where": "cumsum_biggest_until", "last": float(last)}
+    except Exception as e:  # noqa: BLE001
+        return {"status": "rejected", "kind": kind_of(e), "where": case["site"], "msg": str(e)[:120]}
+
+
+def process_density(ck, cases, state):
+    answers = ck.driver.run([["RUN", "c18density", "0" if c["nan_at"] is None else "1"] for c in cases]) if cases else []
+    for case, ans in zip(cases, answers):
+        model = parse_ans(ans)
+        impl = run_density(case)
+        ck.case(case, nontrivial=True, sample=(state["n"] % 7 == 0))
+        state["n"] += 1
+        ck.count("entry=density")
+        ck.count("density:" + case["site"] + ":" + ("nan" if case["nan_at"] is not None else "finite") + ":" + impl["status"])
+        if impl["status"] != model["status"]:
+            ck.diverge("validateDensity", case, f"impl {impl} model {model}")
+        elif impl["status"] == "rejected" and impl["kind"] != model["kind"]:
+            ck.diverge("validateDensity", case, f"exception class impl {impl['kind']} ({impl.get('msg')}) model {model['kind']}")
+
+
+# inputs the property's list does not name and the code does not check: only OBSERVED (what the code does is
+# counted in the evidence, nothing is demanded of it, nothing is modelled)
+
+
+def observe_cases(rng, thorough):
+    for n in (1, 2, 3):
+        for fn in ("pdf", "cdf"):
+            for cols in (n - 1, n + 1):
+                # the joint cdf is an n-fold quadrature: a surplus column is only tried where that is cheap
+                if cols >= 1 and (fn == "pdf" or cols < n or n == 1):
+                    yield {"entry": "observe", "gen": "observed:point_columns", "fn": fn, "n_dim": n, "cols": cols}
+        for fn in ("marginal_pdf", "marginal_cdf", "marginal_icdf"):
+            for dim in range(n):
+                if fn == "marginal_cdf" and n == 3 and dim == 1:
+                    continue  # nested quadrature over the conditioning variable: minutes
+                for bad in ("nan", "inf"):
+                    yield {"entry": "observe", "gen": "observed:marginal_non_finite", "fn": fn, "n_dim": n, "dim": dim,
+                           "bad": bad}
+        for k in range(n):
+            for deltas in (0.5, None):
+                yield {"entry": "observe", "gen": "observed:hdc_reversed_limit", "n_dim": n, "pos": k, "deltas": deltas}
+
+
+def _outcome(fn):
+    try:
+        with warnings.catch_warnings():
+            warnings.simplefilter("ignore")
+            r = np.asarray(fn(), dtype=float)
+        return "returned:" + ("finite" if np.all(np.isfinite(r)) else "non_finite_values"), r
+    except Exception as e:  # noqa: BLE001
+        return "raised:" + kind_of(e), None
+
+
+def process_observe(ck, cases, state):
+    models = state["eval_models"]
+    real_empty_like = np.empty_like
+    for case in cases:
+        m = models[case["n_dim"]]
+        g = case["gen"].split(":")[1]
+        if g == "point_columns":
+            x = np.full((2 if case["fn"] == "pdf" else 1, case["cols"]), 1.25)
+            res = []
+            for fill in (0.25, 7.5):
+                def filled(a, *args, _v=fill, **kw):
+                    out = real_empty_like(a, *args, **kw)
+                    out[...] = _v
+                    return out
+                np.empty_like = filled
+                try:
+                    o, r = _outcome(lambda: getattr(m, case["fn"])(x))
+                finally:
+                    np.empty_like = real_empty_like
+                res.append((o, r))
+            o = res[0][0]
+            if res[0][1] is not None and res[1][1] is not None and not np.array_equal(res[0][1], res[1][1], equal_nan=True):
+                o += ":value_depends_on_uninitialised_memory"
+            key = "%s:%s_columns" % (case["fn"], "too_many" if case["cols"] > case["n_dim"] else "too_few")
+        elif g == "marginal_non_finite":
+            v = {"nan": float("nan"), "inf": float("inf")}[case["bad"]]
+            arg = np.array([v, 0.5]) if case["fn"] == "marginal_icdf" else np.array([v, 1.25])
+            kw = {"precision_factor": 0.05} if case["fn"] == "marginal_icdf" else {}
+            o, _ = _outcome(lambda: getattr(m, case["fn"])(arg, case["dim"], **kw))
+            key = case["fn"] + ":" + case["bad"]
+        else:
+            lims = [(0, 4)] * case["n_dim"]
+            lims[case["pos"]] = (4, 0)
+            o, _ = _outcome(lambda: V.HighestDensityContour(m, 0.1, limits=lims, deltas=case["deltas"]).coordinates
+                            if case["n_dim"] > 1 else
+                            np.concatenate([np.ravel(c) for c in np.atleast_1d(
+                                V.HighestDensityContour(m, 0.1, limits=lims, deltas=case["deltas"]).coordinates)]))
+            key = "deltas_" + ("given" if case["deltas"] is not None else "default")
+        ck.case(case, nontrivial=True, sample=(state["n"] % 13 == 0))
+        state["n"] += 1
+        ck.count("entry=observe")
+        ck.count("observed_only:%s:%s:%s" % (g, key, o))
 
 
 PT = {"f": 1.25, "nan": float("nan"), "inf": float("inf"), "ninf": float("-inf")}
@@ -1476,7 +1830,8 @@ def corpus_cases():
 
 
 PROCESS = {"model": process_model, "fit": process_fit, "slicer": process_slicer, "grid": process_grid,
-           "points": process_points, "twod": process_contours, "iform": process_contours}
+           "points": process_points, "twod": process_contours, "iform": process_contours,
+           "density": process_density, "observe": process_observe}
 
 
 def new_state():
@@ -1499,9 +1854,12 @@ def main(ck):
     rng = np.random.default_rng(ck.seed)
     thorough = ck.tier == "thorough"
     ck.rule = (
-        "malformed stream: every malformation class of the property (model description 10 classes with variants, "
-        "fit 7, slicer 3, HDC limits/deltas 4, non-finite points, non-2-D model, IFORM model type) injected at every "
-        "position of every hierarchy of 1-4 dimensions with each of the 8 families (6 shipped + two ScipyDistribution subclasses: gamma by scipy_dist_name, shape-less Gumbel by scipy_dist) as carrier, singly; pairs "
+        "malformed stream: every malformation class of the property (model description 11 classes with variants, "
+        "fit 8 incl. data that is not a table, slicer 4 incl. misplaced named options, HDC limits/deltas 5 incl. limit "
+        "entries, non-finite points, non-2-D model, IFORM model type) injected at every "
+        "position of every hierarchy of 1-4 dimensions with each of the 9 families (6 shipped + LogNormalNormFit + two "
+        "ScipyDistribution subclasses: gamma by scipy_dist_name, shape-less Gumbel by scipy_dist) as carrier of model "
+        "descriptions and fit specifications (grid / point / contour checks: one fixed model per dimension count), singly; pairs "
         + ("exhaustively for model descriptions" if thorough else "as a random sample")
         + "; every well-formed neighbour (the case with the malformation removed, plus accepted variations) is run "
         "too. A case is non-trivial if it is ill-formed or has >= 2 dimensions; distinct by SHA1 of the abstract case."
@@ -1511,6 +1869,8 @@ def main(ck):
         "the number of intervals a slicer keeps is computed by the harness (n_kept) and handed to the model",
         "exception classes outside the enum and numpy-internal failures (zero/negative/NaN deltas) are compared as 'rejected' only",
         "joint cdf of finite points is only evaluated for n_dim = 1 (and 2 in the thorough tier): n-fold quadrature",
+        "rejections inside numpy caused by NaN / infinite HDC limit entries are compared as 'rejected' only",
+        "data shapes: the harness states the shape of np.array(data) it built (checked against the array) to the model",
     ]
     state = new_state()
     global POOL
@@ -1535,6 +1895,10 @@ def main(ck):
     ck.partial = {
         "numerical fits, densities and contours behind the checks": "not modelled; the model ends where validation ends "
         "(well-formed neighbours are only observed to be accepted)",
+        "inputs outside the property's list (evidence keys observed_only:*)": "evaluation points with the wrong number of "
+        "columns, NaN / inf in marginal_pdf / marginal_cdf / marginal_icdf, fit data with >= 3 axes whose last axis has "
+        "n_dim entries, HDC limit tuples written (max, min): what the code does is recorded per run, nothing is demanded",
+        "NaN in the HDC density table": "correspondence with the model only (ValueError at both raise sites), no oracle",
     }
 
 
@@ -1555,6 +1919,8 @@ def _explore(ck, rng, thorough, state):
     run_batch(ck, list(grid_cases(rng, thorough)), state)
     run_batch(ck, list(point_cases(rng, thorough)), state)
     run_batch(ck, list(contour_cases(rng, thorough)), state)
+    run_batch(ck, list(density_cases(rng, thorough)), state)
+    run_batch(ck, list(observe_cases(rng, thorough)), state)
     fc = list(fit_cases(rng, thorough))
     run_batch(ck, fc, state)
     run_batch(ck, list(fit_pair_cases(rng, 6000 if thorough else 600)), state)
